@@ -8,7 +8,7 @@ from .. import calg
 from ..pymodel import package
 from ..ratemodel import model as ratemodel, SELF
 from ..valueflow import Flow, acc_as_comp, as_map, lower, match, V, show, simp, walk
-from .c05 import REF, arms_for, variant_text, COEFF
+from .c05 import REF, arms_for, variant_text, COEFF, _about_law
 from .c10 import tables, grain_methods, GRAIN_CLASSES, delegated_types
 from .c11 import name_hole
 
@@ -109,6 +109,12 @@ def _split_src(v):
         break
     if x[0] == "item" and x[1][0] == "meth" and x[1][2] == "split" and x[1][3] == (("const", ","),):
         return x[1][1], x[2], wraps
+    # fields[k] of the split record kept whole in a local
+    if x[0] == "sub" and x[1][0] == "meth" and x[1][2] == "split" and x[1][3] == (("const", ","),) and x[2][0] == "const" and type(x[2][1]) is int:
+        return x[1][1], x[2][1], wraps
+    if x[0] == "sub" and x[1][0] == "meth" and x[1][2] == "split" and x[1][3] == (("const", ","),) and x[2][0] == "unop" and x[2][1] == "USub" \
+            and x[2][2][0] == "const" and type(x[2][2][1]) is int:
+        return x[1][1], -x[2][2][1], wraps
     return None, None, wraps
 
 
@@ -141,6 +147,11 @@ def _r1_r2(ctx, w, r):
                 got.append(show(seq)[:40])
         else:
             got.append(f"literal:{f[1]}")
+    # a column is understood when it is an attribute (chain) of the reaction, one of the two filled species lists or literal text
+    strange = [g for g in got if not (g in ("REACTANTS", "PRODUCTS") or g.startswith("literal:") or re.fullmatch(r"(self\.)?[A-Za-z_]\w*(\.[A-Za-z_]\w*)*", g))]
+    if got != WRITER_FIELDS and strange:
+        ctx.unrec("R1", "writer:field-order", W, f"column(s) of the written record are not understood: {strange[:3]} (record read as {got})")
+        return
     ctx.check(got == WRITER_FIELDS, "R1", "writer:field-order", W, "the record is idx, reactants, products, alpha, beta, gamma, tmin, tmax, type, source",
               expected=str(WRITER_FIELDS), found=str(got))
     if got != WRITER_FIELDS:
@@ -158,7 +169,7 @@ def _r1_r2(ctx, w, r):
             continue
         ln, k, wraps = _split_src(simp(f.value))
         if ln is None:
-            ctx.bad("R1", f"reader:{attr}", (RFILE, f.line), f"self.{attr} is not read from a field of the comma-split record", found=show(simp(f.value))[:100])
+            ctx.unrec("R1", f"reader:{attr}", (RFILE, f.line), f"cannot trace self.{attr} to a field of the comma-split record: {show(simp(f.value))[:100]}")
             continue
         line = ln
         pos[attr] = (k, wraps, f)
@@ -179,6 +190,7 @@ def _r1_r2(ctx, w, r):
         ok = False
         found = ""
         stripped = False
+        understood = False        # the value is a map over a slice of the starred middle of the split record
         if f is not None:
             v = simp(f.value)
             if v[0] == "acc":
@@ -192,8 +204,12 @@ def _r1_r2(ctx, w, r):
                 if b and b["star"] == ("star", 1, 9) or (b and isinstance(b["star"], tuple) and b["star"][0] == "star" and b["star"][1] == 1):
                     lo_v = b["lo"][1] if b["lo"][0] == "const" else None
                     hi_v = b["hi"][1] if b["hi"][0] == "const" else None
+                    understood = b["lo"][0] == "const" and b["hi"][0] == "const"
                     ok = (lo_v or 0) == lo and hi_v == hi
                 stripped = any(isinstance(x, tuple) and len(x) >= 3 and x[0] == "meth" and x[2] == "strip" and x[1] == bv for x in walk(body))
+        if f is not None and not understood:
+            ctx.unrec("R1", f"reader:{attr}:slice", (RFILE, f.line), f"cannot see which fields self.{attr} is built from: {show(simp(f.value))[:100]}")
+            continue
         ctx.check(ok, "R1", f"reader:{attr}:slice", (RFILE, f.line if f else r["fn"].lineno),
                   f"{attr} are read from the {hi - lo} fields the writer fills for them", expected=f"fields[{lo}:{hi}] after the index", found=found)
         ctx.check(stripped, "R2", f"reader:{attr}:strip", (RFILE, f.line if f else r["fn"].lineno), f"padded species names are stripped before they are parsed")
@@ -257,11 +273,18 @@ def _r4(ctx, pkg):
     rec = [f for f in writes if f.loops and any(isinstance(x, tuple) and len(x) == 4 and x[0] == "fmt" and x[1][0] == "elem" for x in walk(simp(f.value)))]
     nl = [f for f in writes if f.loops and simp(f.value[3][0]) in (("const", "\n"),)]
     ok = len(rec) == 1 and len(rec[0].loops) == 1 and simp(rec[0].loops[0].iter) == ("attr", SELF, "reaction_list") and not rec[0].guards
-    ctx.check(ok, "R4", "Network.write:one-record-per-reaction", (NET, fn.lineno), "every reaction of reaction_list is written once, in order, unconditionally",
-              found="; ".join(show(f.value)[:60] for f in rec))
+    if not rec or (len(rec) > 1 and all(f.guards for f in rec)):
+        # no write of a formatted loop element found / one write per branch: the way records are written is not understood
+        ctx.unrec("R4", "Network.write:one-record-per-reaction", (NET, fn.lineno), f"cannot find the single write of the formatted reaction inside the loop over the reactions ({len(rec)} candidates)")
+    else:
+        ctx.check(ok, "R4", "Network.write:one-record-per-reaction", (NET, fn.lineno), "every reaction of reaction_list is written once, in order, unconditionally",
+                  found="; ".join(show(f.value)[:60] for f in rec))
     g_ok = len(nl) == 1 and len(nl[0].guards) == 1 and nl[0].guards[0][1] is False and "krome" in show(nl[0].guards[0][0])
-    ctx.check(g_ok, "R4", "Network.write:terminator", (NET, fn.lineno), "each record of a non-KROME format is terminated by exactly one newline",
-              found="; ".join(f"{show(f.value)[:40]} guards {[(show(g)[:30], p) for g, p in f.guards]}" for f in nl))
+    if not nl:
+        ctx.unrec("R4", "Network.write:terminator", (NET, fn.lineno), "no separate write of the line terminator found in the loop: how records are terminated is not understood")
+    else:
+        ctx.check(g_ok, "R4", "Network.write:terminator", (NET, fn.lineno), "each record of a non-KROME format is terminated by exactly one newline",
+                  found="; ".join(f"{show(f.value)[:40]} guards {[(show(g)[:30], p) for g, p in f.guards]}" for f in nl))
 
 
 def _unify_env(regs, F):
@@ -304,6 +327,11 @@ def _r5(ctx, rm, pkg):
                 continue
             if fk == {"delegate"} and nk == {"delegate"}:
                 _grain_sibling(ctx, rm, regs, F, tval, key, where)
+                continue
+            # arms kept only because a dispatch condition could not be evaluated for this code say nothing about the code
+            open_ = sorted({show(c)[:70] for arms in (farms, narms) for _, extra in arms for c, _p in extra if not _about_law(c)})
+            if open_ and (len(fk) != 1 or len(nk) != 1):
+                ctx.unrec("R5", key, where, f"cannot decide which arm this code takes: condition(s) {open_} are not understood (format class {sorted(fk)}, native class {sorted(nk)})")
                 continue
             if fk == {"text"} and nk == {"delegate"}:
                 ctx.bad("R5", key, where, "the format class computes this type itself while the native class hands it to the grain model")
@@ -449,7 +477,14 @@ def _r6(ctx, pkg):
     arg0 = w[0].args[0] if len(w) == 1 and w[0].args else None
     val0 = [ast.unparse(n.value) for n in ast.walk(fn) if isinstance(n, ast.Assign) and isinstance(arg0, ast.Name) and any(isinstance(t, ast.Name) and t.id == arg0.id for t in n.targets)]
     ok = len(w) == 1 and len(w[0].args) >= 2 and ast.unparse(w[0].args[1]) == "'naunet'" and len(val0) == 1 and re.fullmatch(r"\w+ / 'reactions\.naunet'", val0[0]) is not None
-    ctx.check(ok, "R6", "Network.export:reaction-file", (NET, fn.lineno), "export writes path/'reactions.naunet' in the 'naunet' format", found=ast.unparse(w[0]) if w else "")
+    # positive evidence of a wrong export: the format argument is another literal, or the file name is another literal
+    wrong_fmt = len(w) == 1 and len(w[0].args) >= 2 and isinstance(w[0].args[1], ast.Constant) and w[0].args[1].value != "naunet"
+    wrong_name = len(w) == 1 and len(val0) == 1 and re.fullmatch(r"\w+ / '[^']*'", val0[0]) is not None and not val0[0].endswith("/ 'reactions.naunet'")
+    if ok or wrong_fmt or wrong_name:
+        ctx.check(ok, "R6", "Network.export:reaction-file", (NET, fn.lineno), "export writes path/'reactions.naunet' in the 'naunet' format", found=ast.unparse(w[0]) if w else "")
+    else:
+        ctx.unrec("R6", "Network.export:reaction-file", (NET, fn.lineno), f"cannot see which file / format Network.export writes the reactions to ({len(w)} self.write calls"
+                  + (f": {ast.unparse(w[0])[:80]}, path = {val0[:2]}" if w else "") + ")")
     # ... on EVERY path that goes on to write the configuration and the sources (must-pass-through): the exchange file and the
     # generated code describe the same network also when the project directory already exists
     if len(w) == 1:
@@ -470,28 +505,51 @@ def _r6(ctx, pkg):
                                 return False        # an arm without the write falls through
                             if r is False:
                                 return False
-                        return True
-                    return False
+                        return "?" if "?" in res else True
+                    if isinstance(st, (ast.With, ast.Try)) and not getattr(st, "handlers", None):
+                        return dominating(st.body)  # `with ..:` / try-finally: the body runs
+                    return "?"                      # inside a loop / try-except / assignment: not understood
             return None
         dom = dominating(fn.body)
+        if dom == "?":
+            ctx.unrec("R6", "Network.export:reaction-file on every continuing path", (NET, w[0].lineno), "the write of reactions.naunet sits inside a statement whose paths are not understood")
+            dom = None
         later = [c for c in ast.walk(fn) if isinstance(c, ast.Call) and (ast.unparse(c.func) == "NetworkConfiguration" or (isinstance(c.func, ast.Attribute) and c.func.attr in ("render", "write") and
                                                                                                                   ast.unparse(c.func) != "self.write")) and c.lineno > w[0].lineno]
-        ctx.check(dom is True and len(later) >= 2, "R6", "Network.export:reaction-file on every continuing path", (NET, w[0].lineno),
-                  "every path that reaches the configuration/source rendering has (re)written reactions.naunet" if dom else
-                  "reactions.naunet is written only on some of the paths that go on to regenerate the configuration and sources: re-exporting into an existing project "
-                  "leaves the OLD reaction file next to NEW sources", expected="self.write(reaction_file, 'naunet') unconditionally before the configuration is written",
-                  found="write nested under a condition whose other arm continues")
+        if dom is not None:
+            ctx.check(dom is True and len(later) >= 2, "R6", "Network.export:reaction-file on every continuing path", (NET, w[0].lineno),
+                      "every path that reaches the configuration/source rendering has (re)written reactions.naunet" if dom else
+                      "reactions.naunet is written only on some of the paths that go on to regenerate the configuration and sources: re-exporting into an existing project "
+                      "leaves the OLD reaction file next to NEW sources", expected="self.write(reaction_file, 'naunet') unconditionally before the configuration is written",
+                      found="write nested under a condition whose other arm continues")
     ci = pkg.cls("NetworkConfiguration")
     init = ci.methods["__init__"]
     ctx.saw(CONF, "NetworkConfiguration.__init__")
-    isrc = ast.unparse(init)
-    ctx.check("self._filenames = ['reactions.naunet']" in isrc and "self._formats = ['naunet']" in isrc, "R6", "NetworkConfiguration:file/format", (CONF, init.lineno),
-              "the exported configuration names exactly the file and format Network.export wrote")
+    # by value: what is stored into the two attributes (a literal list, however it is spelled / named on the way)
+    fl = Flow(init, CONF, consts=ratemodel(ctx.tree).module_consts(CONF))
+    named = {}
+    for f in fl.facts:
+        if f.kind == "attrstore" and f.target in ("_filenames", "_formats") and f.extra.get("obj") == SELF:
+            named[f.target] = simp(f.value)
+    lits = {k: [e[1] for e in v[1]] if v[0] in ("list", "tuple") and all(e[0] == "const" for e in v[1]) else None for k, v in named.items()}
+    if lits.get("_filenames") is None or lits.get("_formats") is None:
+        ctx.unrec("R6", "NetworkConfiguration:file/format", (CONF, init.lineno), "cannot see the literal file / format lists the exported configuration records: "
+                  + "; ".join(f"{k} = {show(v)[:60]}" for k, v in named.items()))
+    else:
+        ctx.check(lits["_filenames"] == ["reactions.naunet"] and lits["_formats"] == ["naunet"], "R6", "NetworkConfiguration:file/format", (CONF, init.lineno),
+                  "the exported configuration names exactly the file and format Network.export wrote", expected="['reactions.naunet'] / ['naunet']",
+                  found=f"{lits['_filenames']} / {lits['_formats']}")
     rc = pkg.cls("Reaction")
     fm = rc.attrs.get("format")
-    ctx.check(fm is not None and ast.literal_eval(fm) == "naunet", "R6", "Reaction.format", (RFILE, rc.node.lineno), "'naunet' maps (via supported_reaction_class) to the class whose __format__ wrote the file")
+    try:
+        fmv = ast.literal_eval(fm) if fm is not None else None
+    except Exception:
+        fmv = None
+    if fmv is None:
+        ctx.unrec("R6", "Reaction.format", (RFILE, rc.node.lineno), "Reaction.format is not a literal")
+    else:
+        ctx.check(fmv == "naunet", "R6", "Reaction.format", (RFILE, rc.node.lineno), "'naunet' maps (via supported_reaction_class) to the class whose __format__ wrote the file", found=repr(fmv))
     # binding energies / yields of every surface species travel with the export
-    fl = Flow(init, CONF)
     stv = {f.target: f for f in fl.facts if f.kind == "attrstore" and f.target in ("_bindingenergy", "_photonyield")}
     for nm, attr, tgt in (("binding", "eb", "_bindingenergy"), ("yields", "photon_yield", "_photonyield")):
         vals = [(stv[tgt].value, None, None, stv[tgt].line)] if tgt in stv else []
@@ -505,10 +563,15 @@ def _r6(ctx, pkg):
                 # the table was filled by a loop of element stores: the dict comprehension it is equal to
                 v = acc_as_comp(fl, v[1]) or v
             found = show(v)[:120]
-            if v[0] == "comp" and v[1] == "dict" and len(v[3]) == 1:
+            shape = v[0] == "comp" and v[1] == "dict" and len(v[3]) == 1
+            if shape:
                 tg, it, ifs = v[3][0]
                 ok = it == ("attr", ("param", "network"), "species") and tuple(ifs) == (("attr", tg, "is_surface"),) and \
                     v[2] == ("tuple", (("attr", tg, "name"), ("attr", tg, attr)))
+            if not shape:
+                # not a table built per species (a helper's result, a merged dict ..): nothing visible is wrong
+                ctx.unrec("R6", f"NetworkConfiguration:{nm}", (CONF, vals[-1][3]), f"the exported {nm} table is not understood as a table over the species: {found}")
+                continue
         ctx.check(ok, "R6", f"NetworkConfiguration:{nm}", (CONF, vals[-1][3] if vals else init.lineno),
                   f"the exported table holds {attr} of every surface species of the network (values set through the API included)",
                   expected=f"{{s.name: s.{attr} for s in network.species if s.is_surface}}", found=found)
